@@ -373,43 +373,47 @@ def shape_rules(prog, res, rule="R-SHAPE"):
     res.touched(f)
     loops = paths.natural_loops(f)
     problems = []
-    if len(loops) != 1:
-        raise AnalysisBroken("compute_strides: expected one loop")
-    head, body = loops[0]
-    problems += L.counted_loop_problems(prog, f, head, body, lambda an, s_: L.lconst(4), start=1)
     an = L.Analysis(prog)
     an.inline = False
-    # stores: st[0] = 1 before the loop; in the loop st[i] = st[i-1] * dims[i-1]
-    pre_ok = False
-    body_ok = False
-    for b, i, st_ in f.all_stmts():
-        for lv, op, rhs, w in ir.writes_of(st_):
-            l0 = ir.strip(lv)
-            if l0.get("k") != "idx" or op != "=":
-                continue
-            if b.id not in body:
-                if ir.is_const(l0["i"], 0) and ir.is_const(rhs, 1):
-                    pre_ok = True
-            else:
-                r0 = ir.strip(rhs)
-                if isinstance(r0, dict) and r0.get("k") == "bin" and r0.get("op") == "*":
-                    a, c = ir.strip(r0["l"]), ir.strip(r0["r"])
-                    st0 = L.State()
-                    iv = an.eval(f, l0["i"], st0)[0][0]
+    st0 = L.State()
+    idx_stores = [(bb.id, lv, op, rhs) for bb, i, st_ in f.all_stmts() for lv, op, rhs, w in ir.writes_of(st_)
+                  if ir.strip(lv).get("k") == "idx" and op == "="]
 
-                    def idx_is(x, base_same_as, delta):
-                        if not (isinstance(x, dict) and x.get("k") == "idx"):
-                            return False
-                        v = an.eval(f, x["i"], st0)[0][0]
-                        same = ir.render(ir.strip(x["b"])) == ir.render(ir.strip(base_same_as["b"])) if base_same_as else True
-                        return same and L.lsub(v, iv) == L.lconst(delta)
-                    for x, y in ((a, c), (c, a)):
-                        if idx_is(x, l0, -1) and idx_is(y, None, -1) and ir.render(ir.strip(y["b"])) != ir.render(ir.strip(l0["b"])):
-                            body_ok = True
+    def product_form(l0, rhs):
+        """rhs == strides[k-1] * dims[k-1] for the store strides[k] (k as a linear form)"""
+        r0 = ir.strip(rhs)
+        if not (isinstance(r0, dict) and r0.get("k") == "bin" and r0.get("op") == "*"):
+            return False
+        iv = an.eval(f, l0["i"], st0)[0][0]
+        a, c = ir.strip(r0["l"]), ir.strip(r0["r"])
+
+        def idx_is(x, delta):
+            return isinstance(x, dict) and x.get("k") == "idx" and L.lsub(an.eval(f, x["i"], st0)[0][0], iv) == L.lconst(delta)
+        same = lambda x: ir.render(ir.strip(x["b"])) == ir.render(ir.strip(l0["b"]))
+        for x, y in ((a, c), (c, a)):
+            if idx_is(x, -1) and idx_is(y, -1) and same(x) and not same(y):
+                return True
+        return False
+    if len(loops) == 1:
+        head, body = loops[0]
+        problems += L.counted_loop_problems(prog, f, head, body, lambda an_, s_: L.lconst(4), start=1)
+        pre_ok = any(bid not in body and ir.is_const(ir.strip(lv)["i"], 0) and ir.is_const(rhs, 1) for bid, lv, op, rhs in idx_stores)
+        body_ok = any(bid in body and product_form(ir.strip(lv), rhs) for bid, lv, op, rhs in idx_stores)
+    elif not loops:
+        # unrolled: one store per element
+        by_k = {}
+        for bid, lv, op, rhs in idx_stores:
+            l0 = ir.strip(lv)
+            if ir.is_const(l0["i"]):
+                by_k[ir.strip(l0["i"])["v"]] = (l0, rhs)
+        pre_ok = 0 in by_k and ir.is_const(by_k[0][1], 1)
+        body_ok = all(k in by_k and product_form(*by_k[k]) for k in (1, 2, 3)) and set(by_k) <= {0, 1, 2, 3}
+    else:
+        raise AnalysisBroken("compute_strides: unexpected loop structure")
     if not pre_ok:
         problems.append("strides[0] is not set to 1")
     if not body_ok:
-        problems.append("the loop body is not strides[i] = strides[i-1] * dims[i-1]")
+        problems.append("strides[i] is not strides[i-1] * dims[i-1] for i = 1..3")
     inst = "compute_strides: strides[0] = 1, strides[i] = strides[i-1] * dims[i-1] for i = 1..3"
     if problems:
         res.fail(rule, inst, "%s|compute_strides" % rule, f.loc(),
